@@ -372,3 +372,37 @@ fn thread_hash() -> u64 {
     std::thread::current().id().hash(&mut h);
     h.finish()
 }
+
+/// Monotone counter with a condvar: lets the controller wait for harness-side progress without
+/// polling (so a genuinely wedged scenario becomes quiet and the watchdog's logical criterion fires).
+pub struct Counter {
+    m: Mutex<u64>,
+    cv: Condvar,
+}
+
+impl Counter {
+    pub fn new() -> Counter {
+        Counter { m: Mutex::new(0), cv: Condvar::new() }
+    }
+    pub fn add(&self, n: u64) {
+        *self.m.lock().unwrap() += n;
+        self.cv.notify_all();
+    }
+    pub fn get(&self) -> u64 {
+        *self.m.lock().unwrap()
+    }
+    /// wait until the counter is >= n; false after `secs` seconds without reaching it
+    pub fn wait_at_least(&self, n: u64, secs: u64) -> bool {
+        let mut g = self.m.lock().unwrap();
+        let t0 = std::time::Instant::now();
+        while *g < n {
+            let left = Duration::from_secs(secs).saturating_sub(t0.elapsed());
+            if left.is_zero() {
+                return false;
+            }
+            let (ng, _) = self.cv.wait_timeout(g, left).unwrap();
+            g = ng;
+        }
+        true
+    }
+}
